@@ -1,3 +1,4 @@
+import RactorModel.Lemmas.GenJobMeta
 import RactorModel.Lemmas.GenFrame
 import RactorModel.Lemmas.Frames
 import RactorModel.Extracted
@@ -379,6 +380,7 @@ example : metaOk ⟨1700000000000000000, some 1500, [1, 2]⟩ = true := by decid
 
 
 
+
 /-! ### Translator tie (rs2lean): kernel-checked equivalence between the definitions that
 `extract/rs2lean.py` regenerates from the CURRENT Rust source on every run
 (`RactorModel/Generated/*.lean`) and the hand-written model functions the theorems above are
@@ -409,6 +411,55 @@ theorem generated_encode_network_message_eq_model (msg buf : List UInt8) (h : ms
     encode_network_message msg buf = buf ++ Codec.encodeFrame msg := by
   simp [encode_network_message, Codec.encodeFrame, Rust.unwrap, Rust.tryFrom, h, List.append_assoc]
 end XlateTie
+
+section XlateTieMeta
+open Generated.JobMeta GenJobMeta Codec
+
+/-- `JobOptions::into_bytes`: exactly 16 bytes, submit time then ttl (`None ↦ 0`), both `as u64`. -/
+theorem generated_job_options_into_bytes_eq_model (dflt o : JobOptions) :
+    JobOptions.into_bytes dflt o
+      = encodeBE 8 (o.submit_time % 2 ^ 64) ++ encodeBE 8 ((o.ttl.map (· % 2 ^ 64)).getD 0) := by
+  unfold JobOptions.into_bytes
+  simp only [Rust.cast, Nat.sub_zero]
+  exact copy_two (0 : UInt8) _ _ 8 (length_encodeBE _ _) (length_encodeBE _ _)
+
+/-- `Job::serialize_meta` = `Codec.encodeMeta` for metadata within the `u64` ranges. -/
+theorem generated_serialize_meta_eq_model (dflt : JobOptions) (j : Job)
+    (hs : j.options.submit_time < 2 ^ 64) (ht : ∀ t, j.options.ttl = some t → t < 2 ^ 64)
+    (hk : 16 + j.key.length < 2 ^ 64) :
+    (Job.serialize_meta dflt j).1 = encodeMeta (absMeta j.key j.options) := by
+  unfold Job.serialize_meta
+  simp only [generated_job_options_into_bytes_eq_model]
+  have hw : Rust.wAdd 64 16 j.key.length = 16 + j.key.length := by unfold Rust.wAdd; omega
+  rw [hw]
+  have hl : (encodeBE 8 (j.options.submit_time % 2 ^ 64)
+      ++ encodeBE 8 ((j.options.ttl.map (· % 2 ^ 64)).getD 0)).length = 16 := by
+    simp [length_encodeBE]
+  rw [copy_head_tail (0 : UInt8) _ j.key 16 hl]
+  have h1 : j.options.submit_time % 2 ^ 64 = j.options.submit_time := Nat.mod_eq_of_lt hs
+  have h2 : (j.options.ttl.map (· % 2 ^ 64)).getD 0 = j.options.ttl.getD 0 := by
+    cases h : j.options.ttl with
+    | none => rfl
+    | some t => simp [Nat.mod_eq_of_lt (ht t h)]
+  simp [encodeMeta, absMeta, h1, h2]
+
+/-- `Job::deserialize_meta` (+ `JobOptions::from_bytes` on the 16-byte prefix) = `Codec.decodeMeta`,
+for every input and every default value. -/
+theorem generated_deserialize_meta_eq_model (dflt : JobOptions) (ob : Option (List UInt8)) :
+    (match Job.deserialize_meta dflt ob with
+     | .ok (k, o) => some (absMeta k o)
+     | .error _ => none) = decodeMeta ob := by
+  cases ob with
+  | none => rfl
+  | some bs =>
+    unfold Job.deserialize_meta decodeMeta
+    by_cases h : bs.length < 16
+    · simp [h]
+    · have hl : (List.take 16 bs).length = 16 := by simp; omega
+      simp only [h, decide_false, Bool.false_eq_true, ↓reduceIte, JobOptions.from_bytes, hl, ne_eq,
+        not_true_eq_false, absMeta]
+      simp [List.take_take, List.drop_take]
+end XlateTieMeta
 
 end C19
 
@@ -446,3 +497,6 @@ end C19
 #print axioms C19.generated_checked_frame_length_eq_model
 #print axioms C19.generated_frame_constants
 #print axioms C19.generated_encode_network_message_eq_model
+#print axioms C19.generated_job_options_into_bytes_eq_model
+#print axioms C19.generated_serialize_meta_eq_model
+#print axioms C19.generated_deserialize_meta_eq_model
